@@ -605,7 +605,7 @@ impl<'a, R: Clone> AsyncGlobalCache<'a, R> {
                 // Score combines frequency, recency, and age
                 let score = frequency_component * position_weight * age_factor;
 
-                if score < best_score {
+                if best_evict_key.is_none() || score < best_score {
                     best_score = score;
                     best_evict_key = Some(evict_key.clone());
                 }
